@@ -173,9 +173,17 @@ func runCase(ctx *engine.Ctx, s *spec) {
 	// backend) is: a panic while writing is a failure of C14.
 	var res *render.Result
 	var rerr error
-	pi, skipped := ctx.Guard(desc, func() {
-		res, rerr = render.Render(render.Options{HTML: html, Engine: "pango", BaseURL: s.base, PageBound: 40, NoWrite: true})
-	})
+	opts := render.Options{HTML: html, Engine: "pango", BaseURL: s.base, PageBound: 40, NoWrite: true}
+	if s.fonts2 {
+		fcg, err := twoFontConfig()
+		if err != nil {
+			ctx.Fail(engine.Failure{Clause: "harness-load", Features: feats, Case: desc, Detail: err.Error()})
+			ctx.Case(false, "load-error")
+			return
+		}
+		opts.FontConfig = fcg
+	}
+	pi, skipped := ctx.Guard(desc, func() { res, rerr = render.Render(opts) })
 	if skipped {
 		ctx.Case(false, "skipped")
 		return
@@ -263,6 +271,20 @@ func runCase(ctx *engine.Ctx, s *spec) {
 	}
 	for k, n := range counts {
 		ctx.Count("calls:"+k, n)
+	}
+	// fonts: the recorder checks every run of every DrawText against the fonts passed to AddFont so far
+	// (clause font-registered below); here: how often a DrawText had runs of two and more fonts
+	var nMulti int64
+	for _, p := range r.Pages {
+		nMulti += multiFontTexts(p.Events)
+	}
+	if nMulti > 0 {
+		ctx.Count("clause:font-registered(text drawn with runs of 2+ fonts)", nMulti)
+		fmt.Fprintf(&key, "mf%d;", nMulti)
+	}
+	if s.family == "F" && s.tags["mixed-line"] && nMulti == 0 {
+		// the harness' two-font configuration does not give font fallback inside a line: the clause would be vacuous
+		fail("harness-two-fonts", "-", "a line mixing characters of Ahem and of the fallback font was not drawn with runs of two fonts")
 	}
 	nRecPath := 0
 	for _, v := range r.Violations {
